@@ -197,7 +197,7 @@ fn session(sc: &ScenarioB, opts_keep: usize) -> (Vec<Found>, Vec<StepRecord>, St
         let options = EngineOptions { hash_size: hash_mb, threads: 1, move_overhead: step.move_overhead as usize, syzygy_path: None };
         let tc = time_control_of(&step.go);
         let before = game_image(&game);
-        let legal = oracle::legal_move_strs(&game);
+        let legal = oracle::legal_move_strs_checked(&game, Some(&step.fen), &step.moves);
         let white = game.player == crate::chess::player::Player::White;
         let limit_ms = if step.go.wtime.is_some() || step.go.btime.is_some() {
             Some((if white { step.go.wtime } else { step.go.btime }.unwrap_or(0), true))
@@ -224,7 +224,7 @@ fn session(sc: &ScenarioB, opts_keep: usize) -> (Vec<Found>, Vec<StepRecord>, St
         .unwrap();
         let (mut ts, _control) = TimeStrategy::new(&game, &tc, &options);
         let mut reporter = MonReporter {
-            monitor: LineMonitor::new(game.clone(), step.go.depth),
+            monitor: LineMonitor::new(game.clone(), step.go.depth).with_root_legal(legal.clone()),
             infos: Vec::new(),
             found: Vec::new(),
             transcript: Vec::new(),
@@ -322,7 +322,7 @@ fn session(sc: &ScenarioB, opts_keep: usize) -> (Vec<Found>, Vec<StepRecord>, St
             infos: reporter.infos,
             rec,
             returned_ns: now,
-            hashfull_after: state.tt.occupancy(),
+            hashfull_after: state.tt.occupancy() as usize,
             transcript: reporter.transcript,
         });
     }
